@@ -30,6 +30,8 @@ import (
 //   shm-roundtrip   schema alphabet (plain + top-level / nested / mixed dictionaries)
 //                   x rows {0,1,5} x writer {MaybeWriteToShm, AllocateAndWrite + hand-made pointer}
 //                   x batch metadata x pointer transport {direct, through an IPC stream}
+//                   x pointer metadata key order (every arrangement of shm_offset / shm_length /
+//                   application keys, as a peer writer may emit them)
 //                   x placement {data origin, behind an odd-sized allocation, region moved so
 //                   that it ends exactly at the segment end};
 //                   written through the creating mapping, resolved through a second
@@ -662,6 +664,46 @@ func TestVerif_C35(t *testing.T) {
 			}
 			ptr = vfWithMeta(ptr, kv...)
 		}
+		// Key ORDER of the pointer batch's custom metadata, as a peer writer
+		// (Python / Rust / C++) may lay it out: every arrangement of
+		// {shm_offset, shm_length, the block of application keys}.
+		keyOrder := "OFF,LEN,APP"
+		{
+			m := ptr.(arrow.RecordBatchWithMetadata).Metadata()
+			var offKV, lenKV, app []string
+			for i, k := range m.Keys() {
+				switch k {
+				case MetaShmOffset:
+					offKV = []string{k, m.Values()[i]}
+				case MetaShmLength:
+					lenKV = []string{k, m.Values()[i]}
+				default:
+					app = append(app, k, m.Values()[i])
+				}
+			}
+			orders := []string{"OFF,LEN,APP", "LEN,OFF,APP"}
+			if len(app) > 0 {
+				orders = append(orders, "APP,OFF,LEN", "APP,LEN,OFF", "OFF,APP,LEN", "LEN,APP,OFF")
+			}
+			keyOrder = orders[x.Choose(len(orders), "pointer-key-order")]
+			var kv []string
+			for _, part := range strings.Split(keyOrder, ",") {
+				switch part {
+				case "OFF":
+					kv = append(kv, offKV...)
+				case "LEN":
+					kv = append(kv, lenKV...)
+				default:
+					kv = append(kv, app...)
+				}
+			}
+			ptr = vfWithMeta(ptr, kv...)
+			if keyOrder != "OFF,LEN,APP" {
+				// one class for everything seen only under a non-Go key order
+				// (the Go-order executions keep the family / placement label)
+				sh.family = "pointer-keys-in-peer-order"
+			}
+		}
 		if !IsShmPointerBatch(ptr) || ptr.NumRows() != 0 {
 			x.Failf("C35:pointer:not-a-pointer-batch:"+writer, "rows=%d meta=%v", ptr.NumRows(), vf35MetaOf(ptr))
 			return
@@ -701,7 +743,7 @@ func TestVerif_C35(t *testing.T) {
 		sort.Strings(wantMeta)
 		gotMeta := vf35MetaOf(res)
 		if strings.Join(gotMeta, "|") != strings.Join(wantMeta, "|") {
-			x.Failf("C35:roundtrip:metadata:"+writer, "%s: resolved metadata %v, want %v", sh.name, gotMeta, wantMeta)
+			x.Failf("C35:roundtrip:metadata:"+writer+":pointer-keys="+keyOrder, "%s: pointer metadata order %s: resolved metadata %v, want %v", sh.name, keyOrder, gotMeta, wantMeta)
 		}
 		if IsShmPointerBatch(res) && rows == 0 {
 			x.Failf("C35:roundtrip:still-a-pointer", "resolved batch still carries pointer keys: %v", gotMeta)
